@@ -47,6 +47,16 @@ CLAIMED = {
             "other key present or absent), every single-fault mutant of a valid module, every sys.path content of "
             "any length and every ancillary dictionary incl. NaN values; 'behaves like shipped code' for a file "
             "model composes with C13 and is additionally exercised bounded.", "3 C18"),
+    "C12": ("other", "contract-based deductive verification: the real _hash and obj2bytes are symbolically executed "
+            "(bytes as typed chunk lists, md5 assumed injective); pre-image coverage / don't-care / representation "
+            "/ totality obligations by z3, purity by a syntactic whitelist, concatenation unambiguity as a z3 "
+            "string lemma (refuted: known finding); bounded run across processes and hash seeds",
+            "Discharged for all setting values: equal effective settings and data give equal pre-images, a change "
+            "of any single setting, parameter attribute or data sample changes the pre-image, the documented "
+            "don't-cares do not enter, int/float/bool, tuple/list and dict/Parameters order do not matter. NOT "
+            "proved as a whole: list items are concatenated without separators, which is ambiguous (genuine "
+            "defect, recorded in KNOWN_FINDINGS.txt, replayed as an actual fit-hash collision); therefore level "
+            "'other' rather than 'proof'.", "3 C12"),
 }
 
 NOT_APPLICABLE = {
